@@ -476,6 +476,15 @@ type c47DB struct {
 	ethdb.KeyValueStore
 	st  *c47State
 	bad atomic.Pointer[string]
+	// looseRoot: flat accounts are compared without their storage root (snap/2 catch-up
+	// deliberately leaves the root stale until the trie generation rewrites it).
+	looseRoot bool
+}
+
+func c47SameButRoot(a, b []byte) bool {
+	x, err1 := types.FullAccount(a)
+	y, err2 := types.FullAccount(b)
+	return err1 == nil && err2 == nil && x.Nonce == y.Nonce && x.Balance.Eq(y.Balance) && bytes.Equal(x.CodeHash, y.CodeHash)
 }
 
 type c47Batch struct {
@@ -488,7 +497,7 @@ func (d *c47DB) check(k, v []byte) {
 	switch {
 	case len(k) == 33 && k[0] == rawdb.SnapshotAccountPrefix[0]:
 		h := common.BytesToHash(k[1:])
-		if want, ok := d.st.slim[h]; !ok || !bytes.Equal(want, v) {
+		if want, ok := d.st.slim[h]; !ok || !(bytes.Equal(want, v) || (d.looseRoot && c47SameButRoot(want, v))) {
 			msg = fmt.Sprintf("flat account %x <- %x, target has %x", h, v, want)
 		}
 	case len(k) == 65 && k[0] == rawdb.SnapshotStoragePrefix[0]:
@@ -570,6 +579,12 @@ func c47CheckGenuine(db ethdb.KeyValueStore, st *c47State) error {
 
 // c47CheckComplete: Sync returned nil, so flat state, code and trie equal the target exactly.
 func c47CheckComplete(db ethdb.KeyValueStore, st *c47State) error {
+	return c47CheckCompleteOpt(db, st, false)
+}
+
+// c47CheckCompleteOpt: extraCodesOK tolerates code blobs that the target does not reference
+// (content-addressed leftovers of an earlier pivot), as long as they hash to their key.
+func c47CheckCompleteOpt(db ethdb.KeyValueStore, st *c47State, extraCodesOK bool) error {
 	if err := c47CheckGenuine(db, st); err != nil {
 		return err
 	}
@@ -593,7 +608,7 @@ func c47CheckComplete(db ethdb.KeyValueStore, st *c47State) error {
 		}
 	}
 	c47Iterate(db, rawdb.CodePrefix, 33, func(k, v []byte) { nCode++ })
-	if nCode != len(st.codes) {
+	if nCode != len(st.codes) && !extraCodesOK {
 		return fmt.Errorf("%d code entries stored, target references %d", nCode, len(st.codes))
 	}
 	if err := c47CheckTries(db, st); err != nil {
